@@ -45,9 +45,9 @@ BIAS = {
     "C02": {"set_platform": 10, "flip3": 4, "conv_obj": 3, "group": 2, "ungroup": 1,
             "resequence": 1, "set_port_nr": 1, "set_protocol_nr": 1, "copy": 1,
             "export_import": 1, "reparse": 1, "set_members": 1},
-    "C04": {"shadow_triple": 10, "delete_shadow": 3, "shading": 1, "group": 2, "ungroup": 1,
-            "resequence": 1, "insert": 2, "append": 2, "set_platform": 1, "set_members": 2,
-            "copy": 1, "permute_popins": 1},
+    "C04": {"shadow_triple": 10, "delete_shadow": 3, "shading": 3, "shadow_of": 1, "group": 2,
+            "ungroup": 1, "resequence": 1, "insert": 2, "append": 2, "set_platform": 1,
+            "set_members": 5, "copy": 1, "permute_popins": 1},
     "C10": {"resequence": 10, "ag_resequence": 3, "group": 2, "ungroup": 1, "sort": 1,
             "reverse": 1, "insert": 1, "append": 1, "pop": 1, "set_item_seq": 1,
             "permute_popins": 1, "set_platform": 1},
@@ -151,6 +151,11 @@ class AclMachine(Machine):
             two_clients=w.random() < 0.2,
         )
         bias = BIAS.get(self.prop)
+        if self.prop == "C04":
+            cfg["p_group"] = w.choice([0.1, 0.25, 0.45])
+            cfg["empty_ports"] = w.random() < 0.4
+        if self.prop == "C19":
+            cfg["port_zero"] = w.random() < 0.15
         if bias:
             cfg["weights"] = bias
         else:
@@ -532,10 +537,7 @@ class AclMachine(Machine):
                 self._fail("C17", "C17.query-mutates", f"{k} changed the ACL")
         if k == "set_platform" or k == "flip3":
             self._oracle_platform(slot, op, m, pre_text)
-            if op["p"] == "nxos" and any(needs_split(r) for r in m.flat()):
-                # the implicit split of the conversion is C19's clause
-                self._oracle_ungroup_ports(slot, dict(op="ungroup_ports"), m, pre_leaves,
-                                           identity=False)
+
         if exp.adopt == "order":
             m2 = self._adopt_order(slot, m2, owner, k)
         # -- C15 conservation on reordering / regrouping ops
@@ -550,6 +552,11 @@ class AclMachine(Machine):
             slot["age"] = 0
         self.check_state(slot, f"after {k} {self._brief(op)}", owner=owner, op=op)
         self._count_owned(owner)
+        if k in ("set_platform", "flip3") and op["p"] == "nxos" and m.platform == "ios" \
+                and any(needs_split(r) for r in m.flat()):
+            # the implicit split of the conversion is C19's clause (after C02's own refinement)
+            self._oracle_ungroup_ports(slot, dict(op="ungroup_ports"), m, pre_leaves,
+                                       identity=False)
         return "ok"
 
     @staticmethod
@@ -986,6 +993,11 @@ class AclMachine(Machine):
         n = len(ag.items)
         if n != len(op["lines"]) or not n:
             return "noop"
+        nested_before = []
+        for it in ag.items:
+            if it.type == "addrgroup" and op.get("nested"):
+                it.items = list(op["nested"])
+                nested_before.append([x.line for x in it.items])
         before = [" ".join(x.line.split()[1:]) if x.sequence else x.line for x in ag.items]
         start, step = op["start"], op["step"]
         from .aclref import reseq_predict
@@ -1007,6 +1019,12 @@ class AclMachine(Machine):
             self._fail("C10", "C10.numbers", f"AddrGroup.resequence({start},{step}): {got} "
                                              f"ret={res}, want {nums} ret={ret}", obj="AddrGroup")
         after = [" ".join(x.line.split()[1:]) if x.sequence else x.line for x in ag.items]
+        nested_after = [[x.line for x in it.items] for it in ag.items
+                        if it.type == "addrgroup" and op.get("nested")]
+        if nested_before != nested_after:
+            self._fail("C10", "C10.only-numbers", f"AddrGroup.resequence changed the members of "
+                                                  f"a referenced group: {nested_before} -> "
+                                                  f"{nested_after}", obj="AddrGroup")
         if before != after:
             self._fail("C10", "C10.only-numbers", f"AddrGroup.resequence changed members: "
                                                   f"{before} -> {after}", obj="AddrGroup")
@@ -1080,9 +1098,7 @@ class AclMachine(Machine):
                 lines.append(gen.render_ace(sp, platform, standard=True))
         members = {}
         if cfg["p_group"] and cfg["members_known"]:
-            for g in gen.GROUP_NAMES:
-                if w.random() < 0.75:
-                    members[g] = gen.gen_members(w, platform, w.randint(1, 4))
+            members = gen.gen_member_sets(w, platform)
         self._specs = [s for s in specs if s]
         return dict(op="create_acl", platform=platform, version=cfg["version"], type=type_,
                     name=w.choice(["A1", "ACL-2", "in_x"]), indent=cfg["indent"],
@@ -1220,11 +1236,13 @@ class AclMachine(Machine):
             return dict(op=kind, i=i, j=j, s=s.choice([f"{gen.HEAD}H{s.randint(1, 3)}", "plain",
                                                         f"{gen.HEAD}Z"]))
         if kind == "set_members":
-            cands = [(i, j, side) for i, b in enumerate(m.blocks) for j, r in enumerate(b.rules)
-                     if r.kind == "ace" for side, a in (("src", r.src), ("dst", r.dst)) if a.group]
-            i, j, side = s.choice(cands) if cands else (0, 0, "src")
-            return dict(op=kind, i=i, j=j, side=side,
-                        lines=gen.gen_members(w, m.platform, s.randint(0, 4)))
+            names = sorted({a.group for r in m.flat() if r.kind == "ace"
+                            for a in (r.src, r.dst) if a.group}) or ["G1"]
+            sets = gen.gen_member_sets(w, m.platform)
+            name = s.choice(names)
+            lines = sets[name] if name in sets and s.random() < 0.7 else \
+                gen.gen_members(w, m.platform, s.randint(0, 4))
+            return dict(op=kind, name=name, lines=lines)
         if kind == "ace_ungroup_ports":
             c2 = dict(cfg, p_multi=0.9, p_multi_neq=cfg.get("p_multi_neq", 0.0))
             spec = gen.gen_ace(w, c2, "ios")
@@ -1258,7 +1276,7 @@ class AclMachine(Machine):
         if kind == "ag_resequence":
             plat = s.choice(["ios", "nxos"])
             mem = self._ag_member_lines(w, plat, s.randint(1, 6), allow_ncw=False)
-            nmem = len(mem)
+            nmem = len(mem) + 1
             step = s.choice([1, 10, 10, 2 ** 31])
             span = (nmem - 1) * step
             start = s.choice([0, 1, 10, SEQ_MAX - span, SEQ_MAX - span - 1])
@@ -1267,7 +1285,13 @@ class AclMachine(Machine):
                 start = s.choice([start, start, SEQ_MAX - span + 1, SEQ_MAX + 1, -1])
             else:
                 start = max(0, min(start, SEQ_MAX - span))
-            return dict(op=kind, platform=plat, lines=[x[0] for x in mem], start=start, step=step)
+            lines = [x[0] for x in mem]
+            nested = []
+            if plat == "ios" and s.random() < 0.35:
+                lines.insert(s.randint(0, len(lines)), f"group-object NG{s.randint(1, 3)}")
+                nested = [x[0] for x in self._ag_member_lines(w, plat, s.randint(1, 3), False)]
+            return dict(op=kind, platform=plat, lines=lines, nested=nested, start=start,
+                        step=step)
         return dict(op=kind)
 
     @staticmethod
